@@ -698,19 +698,9 @@ def r201(ctx, repo):
     params = [a.arg for a in wn.args.args]
     if "data" not in params:
         raise AnalysisError("write_ndarray: parameter `data` lost")
-    # offset variable: assigned 0 and from D.shape[0]
-    cand = {}
-    for n in walk(wn):
-        if isinstance(n, ast.Assign) and len(n.targets) == 1 and isinstance(
-                n.targets[0], ast.Name):
-            cand.setdefault(n.targets[0].id, []).append(txt(n.value))
-    O = [k for k, v in cand.items() if "0" in v and (
-        f"{D}.shape[0]" in v or f"len({D})" in v)]
-    if len(O) != 1:
-        raise AnalysisError("write_ndarray: offset variable not identified")
-    O = O[0]
     cfg = CFG(wn)
-    # the store of the new block (scalar branch)
+    # the store of the new block (scalar branch): `D[O:] = data`; O is the
+    # offset variable (where it comes from is decided by C01 / R1.1)
     blk = [n for n in walk(wn) if isinstance(n, ast.Assign)
            and isinstance(n.targets[0], ast.Subscript)
            and isinstance(n.targets[0].value, ast.Name)
@@ -718,6 +708,11 @@ def r201(ctx, repo):
            and isinstance(n.value, ast.Name) and n.value.id == "data"]
     if len(blk) != 1:
         raise AnalysisError("write_ndarray: scalar block store lost")
+    sl = blk[0].targets[0].slice
+    if not (isinstance(sl, ast.Slice) and isinstance(sl.lower, ast.Name)
+            and sl.upper is None and sl.step is None):
+        raise AnalysisError("write_ndarray: offset variable not identified")
+    O = sl.lower.id
     blk_ids = set(cfg.ids_of(blk[0]))
     table = {}
     for uname, st, env in stores:
@@ -2483,6 +2478,47 @@ def _fetch_in_module_helper_wrong_key(src):
         '        ufunc_attrs["mean"] = val\n')
 
 
+def _summaries_in_mixin(src):
+    """_fetch_ufunc_attr / max / mean / min of H5ScalarEvent moved verbatim
+    into a mixin of the same file"""
+    a = src.find("    def _fetch_ufunc_attr(self, uname, ufunc):")
+    b = src.find("    @property\n    def dtype(self):", a)
+    head = "class H5ScalarEvent(np.lib.mixins.NDArrayOperatorsMixin):"
+    if a < 0 or b < 0 or src.count(head) != 1:
+        return src
+    block = src[a:b]
+    src = src[:a] + src[b:]
+    return src.replace(
+        head, "class _UfuncSummaryMixin:\n" + block + "\n"
+        "class H5ScalarEvent(_UfuncSummaryMixin,\n"
+        "                    np.lib.mixins.NDArrayOperatorsMixin):")
+
+
+def _summary_cache_object(src, getter="self._values.get(uname, None)"):
+    edits = [
+        ("        self._ufunc_attrs = dict(self.h5ds.attrs)\n",
+         "        self._ufunc_attrs = _UfuncAttrCache(self.h5ds.attrs)\n"),
+        ("        val = self._ufunc_attrs.get(uname, None)\n",
+         "        val = self._ufunc_attrs.lookup(uname)\n"),
+        ("            self._ufunc_attrs[uname] = val\n",
+         "            self._ufunc_attrs.store(uname, val)\n"),
+        ("\n\nclass H5ContourEvent:\n",
+         "\n\nclass _UfuncAttrCache:\n"
+         "    def __init__(self, attrs):\n"
+         "        self._values = dict(attrs)\n\n"
+         "    def lookup(self, uname):\n"
+         f"        return {getter}\n\n"
+         "    def store(self, uname, value):\n"
+         "        self._values[uname] = value\n"
+         "\n\nclass H5ContourEvent:\n"),
+    ]
+    for old, new in edits:
+        if src.count(old) != 1:
+            return src
+        src = src.replace(old, new)
+    return src
+
+
 MUTANTS = [
     # R20.1
     ("writer: max of a block with np.max", WR,
@@ -2728,6 +2764,11 @@ TWINS = [
      _refresh_with_aliases),
     ("_fetch_ufunc_attr delegates to a module-level helper", EV,
      _fetch_in_module_helper),
+    # round 6
+    ("summary methods of H5ScalarEvent moved into a mixin", EV,
+     _summaries_in_mixin),
+    ("summary cache wrapped in a private cache object", EV,
+     _summary_cache_object),
 ]
 
 # mutants that re-introduce the repaired defects (apply to the fixed tree)
